@@ -19,7 +19,7 @@ func init() {
 		ID:    "C08",
 		Title: "A multi-dimensional FROM applies the query inside every inner array",
 		Level: "exploration",
-		Rule: "IN lists whose items are computed from the row. columns qualified by the table's own name, by an alias of the multi-dimensional source, or named without that alias - over nested, flattened and flat sources; rows that carry a column named like the table. WHERE may hold an aggregate (per-inner-array oracle); a third of the cases executes one Query three times. select lists also carry aggregates without GROUP BY (per-inner-array semantics; mix=> is not asserted for them) and GETVAR / CONSTANT under per-query options. each case = a document holding an array of arrays of objects (depth 2..3, ragged, empty inner arrays, empty outer) x a filter/projection query (WHERE from the C01 grammar; select list with *, columns, aliases and non-idempotent expressions such as `(a + 1) AS a`). " +
+		Rule: "keep=> without a function in front. IN lists whose items are computed from the row. columns qualified by the table's own name, by an alias of the multi-dimensional source, or named without that alias - over nested, flattened and flat sources; rows that carry a column named like the table. WHERE may hold an aggregate (per-inner-array oracle); a third of the cases executes one Query three times. select lists also carry aggregates without GROUP BY (per-inner-array semantics; mix=> is not asserted for them) and GETVAR / CONSTANT under per-query options. each case = a document holding an array of arrays of objects (depth 2..3, ragged, empty inner arrays, empty outer) x a filter/projection query (WHERE from the C01 grammar; select list with *, columns, aliases and non-idempotent expressions such as `(a + 1) AS a`). " +
 			"Oracle (metamorphic over real executions): the nested result must have the source's nesting, and every inner array's result must equal what the same WHERE + select list returns when that inner array is supplied as its own table; " +
 			"`FROM `mix=>path`` must return the concatenation of those inner results. Non-trivial = at least two inner arrays with a non-empty result and a WHERE that rejects at least one row; distinct = distinct (document, SQL).",
 		Assumptions: []string{
